@@ -388,6 +388,17 @@ def work(job):
                 cfg = make_cfg(r, kind_hint=it[0], length=it[1])
                 cfg["transfers"] = cfg["transfers"][:1]
                 fault, faultfree, dup = None, True, False
+            elif kind == "mtusweep":
+                # loss-free transfers of 20+ blocks on every path MTU of a range: the room a
+                # message needs changes along a transfer (tokens and Block option values grow)
+                tkind, mtu = it
+                r = common.rng("c09-mtu-%s-%d" % (tkind, mtu))
+                cfg = make_cfg(r, kind_hint=tkind, length=min(24000, 22 * mtu))
+                cfg["transfers"] = cfg["transfers"][:1]
+                cfg["transfers"][0].typ = 0
+                cfg.update(client_maxblk=0, server_maxblk=0, client_mtu=mtu, server_mtu=mtu,
+                           nstart=1)
+                fault, faultfree, dup = None, True, False
             elif kind == "enum":
                 tkind, assign = it
                 r = common.rng("c09-enum-%s" % tkind)
@@ -500,6 +511,7 @@ def main(tier):
                 "exhaustively {k*2^s-1, k*2^s, k*2^s+1 | s=4..10, k=0..5} plus 0, 1 and random "
                 "up to 64 KiB; max block size 16..1024 on either side, session MTU 64..1400, "
                 "single-body and per-block delivery, CON and NON, two concurrent transfers; "
+                "loss-free transfers of 20+ blocks on every path MTU 64..330 (thorough ..1200); "
                 "fault plans: none / every {deliver,drop,duplicate} assignment to the first N "
                 "datagrams of a 3-block transfer / random loss+duplication+delay; "
                 "distinct_nontrivial = distinct (kind, length class, modes, sizes, fault) tuples")
@@ -528,6 +540,12 @@ def main(tier):
         jobs.append(("enum", enum[i:i + 12], exe))
     for i in range(0, nrand, chunk):
         jobs.append(("rand", list(range(i, min(nrand, i + chunk))), exe))
+    if tier == "quick":
+        sweep = [("get", m) for m in range(64, 331)] + [("put", m) for m in range(64, 331, 3)]
+    else:
+        sweep = [(k, m) for m in range(64, 1201) for k in ("get", "put")]
+    for i in range(0, len(sweep), 8):
+        jobs.append(("mtusweep", sweep[i:i + 8], exe))
     nab = 24 if tier == "quick" else 600
     for i in range(0, nab, chunk):
         jobs.append(("abandon", list(range(i, min(nab, i + chunk))), exe))
